@@ -2,6 +2,7 @@ package props
 
 import (
 	"math/rand"
+	"reflect"
 	"strings"
 	"testing"
 
@@ -226,4 +227,140 @@ func TestC14GroupItems(t *testing.T) {
 	if r := c14Render(g); !strings.Contains(r.Out, "+") {
 		t.Errorf("group does not see a later append to the returned statement: %v", r)
 	}
+}
+
+// ---- c14_extra.go: callbacks that add to the enclosing group, shared argument slices
+
+func withGroupForm(name string, mk func(g *jen.Group) interface{}, body func()) {
+	old := c14GroupForm
+	c14GroupForm = func(g *jen.Group, n string) reflect.Value {
+		if n == name {
+			return reflect.ValueOf(mk(g))
+		}
+		return old(g, n)
+	}
+	defer func() { c14GroupForm = old }()
+	body()
+}
+
+func TestC14EnclosingGroup(t *testing.T) {
+	if bad := c14EnclosingEnum(); len(bad) > 0 {
+		t.Fatalf("unchanged tree: %v", bad)
+	}
+	if n := len(c14CallbackConstructs()); n < 20 {
+		t.Fatalf("only %d constructs with callbacks found", n)
+	}
+	// a Group form of Do that appends a fresh statement to the group FIRST and then runs the
+	// callback on it (g.Add() returns the statement it appended): equivalent for callbacks
+	// that only touch their own statement, wrong for one that hoists something into g
+	lateDo := func(g *jen.Group) interface{} {
+		return func(f func(*jen.Statement)) *jen.Statement { s := g.Add(); return s.Do(f) }
+	}
+	withGroupForm("Do", lateDo, func() {
+		e := strings.Join(c14EnclosingEnum(), "; ")
+		if !strings.Contains(e, "Do:") || !strings.Contains(e, "before running the callback") {
+			t.Errorf("Group.Do appending before the callback not caught by the enumeration: %q", e)
+		}
+		if e := c14Verdict("Do", 3); !strings.Contains(e, "before running the callback") {
+			t.Errorf("Group.Do appending before the callback not caught by the api case: %q", e)
+		}
+	})
+	// the same defect seen through rendering only (as if Group.items could not be read)
+	withGroupForm("CallFunc", func(g *jen.Group) interface{} {
+		return func(f func(*jen.Group)) *jen.Statement {
+			s := jen.Null() // the new statement is put into the group before the callback runs
+			g.Add(s)
+			return s.CallFunc(f)
+		}
+	}, func() {
+		e := strings.Join(c14EnclosingEnum(), "; ")
+		if !strings.Contains(e, "CallFunc") {
+			t.Errorf("Group.CallFunc appending before the callback not caught: %q", e)
+		}
+	})
+	withGroupForm("LitFunc", func(g *jen.Group) interface{} {
+		return func(f func() interface{}) *jen.Statement { s := g.Add(); return s.LitFunc(f) }
+	}, func() {
+		if e := c14Verdict("LitFunc", 3); e == "" {
+			t.Errorf("Group.LitFunc appending before the callback not caught")
+		}
+	})
+	// a Group form that is correct must pass through the hook
+	withGroupForm("Do", func(g *jen.Group) interface{} {
+		return func(f func(*jen.Statement)) *jen.Statement { return g.Do(f) }
+	}, func() {
+		if e := c14Verdict("Do", 3); e != "" {
+			t.Errorf("correct Group.Do rejected: %s", e)
+		}
+	})
+	// Values(DictFunc(f)): a function form of Values that loses the Dict
+	withFunc("Values", func(values ...jen.Code) *jen.Statement { return jen.Values() }, func() {
+		if e := c14EnclosingDict(); !strings.Contains(e, "function form") {
+			t.Errorf("Values(DictFunc) difference not caught: %q", e)
+		}
+	})
+}
+
+func TestC14SharedArgumentSlice(t *testing.T) {
+	if bad := c14AliasEnum(); len(bad) > 0 {
+		t.Fatalf("unchanged tree: %v", bad)
+	}
+	vs := c14VariadicConstructs()
+	if len(vs) < 20 || vs[0] != "Add" {
+		t.Fatalf("variadic constructs: %v", vs)
+	}
+	// the function form of Add wraps the caller's slice instead of copying it
+	withFunc("Add", func(code ...jen.Code) *jen.Statement { s := jen.Statement(code); return &s }, func() {
+		e := strings.Join(c14AliasEnum(), "; ")
+		if !strings.Contains(e, "Add(args...)") || !strings.Contains(e, "leaked into the other") || !strings.Contains(e, "function form") {
+			t.Errorf("Add wrapping the caller's slice not caught by the enumeration: %q", e)
+		}
+		if e := c14Verdict("Add", 20); !strings.Contains(e, "leaked into the other") {
+			t.Errorf("Add wrapping the caller's slice not caught by the api cases: %q", e)
+		}
+	})
+	// the same in the Group form only
+	withGroupForm("Add", func(g *jen.Group) interface{} {
+		return func(code ...jen.Code) *jen.Statement {
+			s := g.Add()
+			*s = jen.Statement(code)
+			return s
+		}
+	}, func() {
+		e := strings.Join(c14AliasEnum(), "; ")
+		if !strings.Contains(e, "Group form") || !strings.Contains(e, "leaked into the other") {
+			t.Errorf("Group.Add wrapping the caller's slice not caught: %q", e)
+		}
+	})
+	// a List whose function form appends its Group to the caller's slice: the chained token
+	// of the first statement is overwritten only when the caller appends (step C)
+	withFunc("List", func(items ...jen.Code) *jen.Statement {
+		s := jen.Statement(append(items[:len(items):len(items)], jen.List(items...)))
+		s = s[len(items):]
+		return &s
+	}, func() {
+		if e := strings.Join(c14AliasEnum(), "; "); e != "" {
+			t.Errorf("harmless function form rejected: %s", e)
+		}
+	})
+	withFunc("List", func(items ...jen.Code) *jen.Statement {
+		s := jen.Statement(append(items, jen.List(items...))) // uses the caller's spare capacity
+		s = s[len(items):]
+		return &s
+	}, func() {
+		e := strings.Join(c14AliasEnum(), "; ")
+		if !strings.Contains(e, "List(args...)") {
+			t.Errorf("List statement living in the caller's spare capacity not caught: %q", e)
+		}
+	})
+	// forms that treat the caller's later writes differently: the function form of Call copies
+	// its arguments while the other two keep the slice
+	withFunc("Call", func(params ...jen.Code) *jen.Statement {
+		return jen.Call(append([]jen.Code{}, params...)...)
+	}, func() {
+		e := strings.Join(c14AliasEnum(), "; ")
+		if !strings.Contains(e, "Call(args...)") || !strings.Contains(e, "not equivalent under the same caller actions") {
+			t.Errorf("forms differing in what they show of the caller's writes not caught: %q", e)
+		}
+	})
 }
